@@ -10,6 +10,14 @@ GROUPS = [
 GROUPS.append(Group(name="C12/assemble", unity="C12/u_assemble.cpp", entry="h_assemble",
                     functions=[("AsmContext::assemble", "core/AsmContext.cpp", "harness+loop-contracts, unbounded statement stream"), ("AsmContext::directive", "core/AsmContext.cpp", "real callee")],
                     loops="C12/assemble.loops.json", expected_loops=2, unwind=10, checks=CH, timeout=900))
+DIRS = ["define", "ifdef", "ifndef", "if", "endif", "else", "endr", "include", "binfile", "code", "bss", "macro", "pragma", "device", "set", "export",
+        "entry_point", "align", "align_bits", "align_bytes", "equ", "def", "scope", "ends", "func", "endf", "low_address", "high_address", "big_endian",
+        "little_endian", "list", "data_fill", "bogus"]
+for d in DIRS:
+    GROUPS.append(Group(name="C12/parse_directives.%s" % d, unity="C12/u_directives.cpp", entry="h_directive",
+                        functions=[("parse_directives", "core/directives.cpp", "harness, directive spelling concrete"), ("static handlers of core/directives.cpp", "core/directives.cpp", "real callees")],
+                        defines=['DIRNAME="%s"' % d], unwind=90, checks=CH, timeout=600, 
+                        tier="quick" if d in ("define", "ifdef", "if", "endif", "else", "repeat", "endr", "set", "export", "equ", "align", "include", "func", "bogus", "entry_point") else "thorough"))
 import C13 as _c13
 GROUPS.append(Group(name="C12/init_keeps_errors", unity="C13/u_ctx.cpp", entry="h_init_between_passes", functions=_c13.CTXF[1:5], unwind=4, checks=CH, timeout=600))
 LEVEL = "proof"
